@@ -60,6 +60,9 @@ func (e *Engine) Setup(tier string) error {
 		}
 	}
 	root := "/repo/waroot"
+	if d := os.Getenv("VERIF_REPO"); d != "" {
+		root = d + "/waroot"
+	}
 	var cands []string
 	for _, g := range []string{"hello.wa", "hello.wz", "examples/*.wa", "examples/misc/*.wa", "tests/*.wa", "examples/*/wa.mod"} {
 		m, _ := filepath.Glob(filepath.Join(root, g))
